@@ -26,6 +26,8 @@ import Pandora.Proofs.C03Await
 import Pandora.Bridge.C03Await
 import Pandora.Proofs.C03Start
 import Pandora.Bridge.C03Start
+import Pandora.Proofs.C03Comp
+import Pandora.Bridge.C03Comp
 
 namespace Pandora.Props.C03
 open Pandora.Model.C03 Pandora.Proofs.C03
@@ -459,6 +461,81 @@ theorem C03_source_start (answers : List Bool) (firstOk : Bool) :
 
 end Start
 
+/-! ### the pool over a COMPOSITE profile, at the granularity of the composite's lock sections (`Pandora.Model.C03Comp`) -/
+
+section Comp
+open Pandora.Model.C03Fine Pandora.Model.C03Comp Pandora.Proofs.C03Comp
+
+/-- **refinement**: a profile written as a list of parts (`compositeSchedule`; zero-token parts anywhere) whose `Next()` is a
+succession of critical sections — reader section, the point before `Lock` at which no lock is held, writer section,
+retries — interleaved in ANY way among any number of instances (and with everything else the instances do): the pool ends
+up in a state the pool over an atomic token counter reaches too, by a run that is not longer; at every moment that
+counter IS the number of tokens left in the parts (shared profile, and each instance's own with rps-per-instance) -/
+theorem C03_comp_refines (c : Cfg) (parts : List Nat) (hp : tot parts = c.tokens) (evs : List CEv) (s : CSt)
+    (h : crun c parts (cinitWith c parts) evs = some s) :
+    (∃ fevs : List FEv, frun c (finit c) fevs = some s.f ∧ fevs.length ≤ evs.length) ∧
+    s.f.base.shared = tot s.sp ∧ s.f.base.own = s.op.map tot :=
+  let ⟨hr, hI⟩ := comp_refines hp evs _ s (cinit_inv c parts hp) h
+  ⟨hr, hI.shared, hI.own⟩
+
+/-- **no premature "finished", no token lost**: a section of `Next()` — the reader section, or the writer section of a
+caller that found the part drained and may meanwhile have been overtaken by others that started the next part(s) — either
+does not conclude (it goes on to the writer section / starts again, and the pool's counters do not move) or hands the loop
+`ok = true` exactly when some part still has a token (and then takes exactly one, `C03_comp_refines`), `ok = false` exactly
+when every part is drained -/
+theorem C03_comp_section_answer (c : Cfg) (parts : List Nat) (hp : tot parts = c.tokens) (evs : List CEv) (s s' : CSt)
+    (h : crun c parts (cinitWith c parts) evs = some s) (i : Nat) (e : CEv) (he : e = .rsec i ∨ e = .wsec i)
+    (hs : cstep c parts s e = some s') :
+    s'.f = s.f ∨ s'.f.pend[i]? = some (.drew (decide (0 < tot (s.prof c i)))) :=
+  section_answer hp (comp_inv hp h) he hs
+
+/-- the writer section of a caller between its sections never panics (no `scheds[0]` / `scheds[1:]` of an empty slice, however
+many parts the others have dropped meanwhile) and is never followed by another writer section without a reader section -/
+theorem C03_comp_writer_never_panics (c : Cfg) (parts : List Nat) (hp : tot parts = c.tokens) (evs : List CEv) (s : CSt)
+    (h : crun c parts (cinitWith c parts) evs = some s) (i seen : Nat) (hw : s.w[i]? = some (some seen)) :
+    ∃ p o, wsec (s.prof c i) seen = (p, o) ∧ (o = .ret true ∨ o = .ret false ∨ o = .retry) :=
+  wsec_total ((comp_inv hp h).wait i seen hw)
+
+/-- fired + discarded = min(tokens, ammo) over composite profiles, every interleaving of the lock sections -/
+theorem C03_comp_total (c : Cfg) (parts : List Nat) (hp : tot parts = c.tokens) (evs : List CEv) (s : CSt)
+    (h : crun c parts (cinitWith c parts) evs = some s) (ht : s.f.base.terminal = true) (hN : 0 < s.f.base.started) :
+    s.f.base.fired + s.f.base.discarded = minOpt (s.f.base.totalTokens c) c.ammo :=
+  let ⟨fevs, hr⟩ := comp_reaches hp h
+  C03_fine_total c fevs s.f hr ht hN
+
+/-- every acquired item released exactly once and never used while not held; the unfired bounds; Request = Response = fired —
+over composite profiles, every interleaving of the lock sections -/
+theorem C03_comp_release_unfired_metrics (c : Cfg) (parts : List Nat) (hp : tot parts = c.tokens) (evs : List CEv) (s : CSt)
+    (h : crun c parts (cinitWith c parts) evs = some s) (ht : s.f.base.terminal = true) :
+    (s.f.base.acquired = s.f.base.released ∧ (∀ k, k < s.f.base.acquired → s.f.base.rels[k]? = some 1) ∧ s.f.base.badUse = false) ∧
+    (c.perInstance = false → s.f.base.acquired - (s.f.base.fired + s.f.base.discarded) ≤ s.f.base.started - 1 ∧
+        s.f.base.started - 1 ≤ c.instances - 1) ∧
+    (c.perInstance = true → s.f.base.acquired = s.f.base.fired + s.f.base.discarded) ∧
+    s.f.base.request = s.f.base.fired ∧ s.f.base.response = s.f.base.fired :=
+  let ⟨fevs, hr⟩ := comp_reaches hp h
+  ⟨C03_fine_release c fevs s.f hr ht, (C03_fine_unfired c fevs s.f hr ht).1, (C03_fine_unfired c fevs s.f hr ht).2,
+   C03_fine_metrics c fevs s.f hr ht⟩
+
+/-- the composite REGENERATED from the current core/schedule/composite.go is the one of `Model.C03Comp`: the reader and
+the writer section of `Next` (for every list of parts and every `seen`, panics included), `Left()` = one reader section
+that returns the tokens of the current part plus those of the parts after it, `startNext` drops the heads of `scheds` and
+`leftAfter` together, `NewComposite` fills `leftAfter[k]` with the tokens of the parts after `k` -/
+theorem C03_source_composite :
+    (∀ s, Pandora.Gen.InstLoop.compNextReader s = rsec s) ∧
+    (∀ s seen, Pandora.Gen.InstLoop.compNextWriter s seen = wsec s seen) ∧
+    Pandora.Gen.InstLoop.compNextPrologue = ["$.started.Store(true)"] ∧
+    Pandora.Gen.InstLoop.compLeftReads = ["left", "leftAfter", "schedsLeft"] ∧
+    (∀ (a : Nat) (r : List Nat) (st : Bool),
+      Pandora.Gen.InstLoop.compLeftDecide ((a :: r).length : Nat) (tot r : Nat) (a : Nat) st = .ret ((compLeft (a :: r) : Nat) : Int)) ∧
+    Pandora.Gen.InstLoop.compStartNext = ["$.leftAfter = $.leftAfter[1:]", "$.scheds = $.scheds[1:]", "$.scheds[0].Start($t)"] ∧
+    Pandora.Gen.InstLoop.compBuildLoop = "for $i := len($parts) - 1; $i >= 0; $i--" ∧
+    (∀ parts, buildWith Pandora.Gen.InstLoop.compBuildStep parts = ((mkLeftAfter parts).map Int.ofNat, false, Int.ofNat (tot parts))) :=
+  ⟨Pandora.Bridge.C03Comp.reader_eq, Pandora.Bridge.C03Comp.writer_eq, Pandora.Bridge.C03Comp.prologue_eq,
+   Pandora.Bridge.C03Comp.left_reads_eq, Pandora.Bridge.C03Comp.left_is_tot, Pandora.Bridge.C03Comp.startNext_eq,
+   Pandora.Bridge.C03Comp.build_loop_eq, Pandora.Bridge.C03Comp.build_finite⟩
+
+end Comp
+
 /-! ### non-vacuity: each hypothesis is met by a concrete non-trivial run -/
 
 -- shared once(1), 2 ammo, two instances started one after the other; the second acquires an item that goes unfired;
@@ -586,5 +663,40 @@ example : (Pandora.Model.C03Start.execStart Pandora.Model.C03Start.startPre [.bi
 example : Pandora.Model.C03Loop.bodyAccepted
     [.waitOrReturn, .acquireOrReturn "ammo", .deferRelease "ammo", .ifFire, .metricAdd "Request" 1, .shoot "ammo",
      .metricAdd "Response" 1, .orElse, .reportDiscard, .endIf, .returnNil] = false := by decide
+
+-- `C03_comp_*`: two instances on a shared profile [no tokens, a pause, 1 token] (`rps: [{const 0}, {const 0}, {once 1}]`).
+-- Both find the first part drained (reader sections, `len = 3` seen); instance 0 drops it under the write lock, finds the
+-- pause empty and starts again; instance 1 then gets the write lock, sees that somebody has started the next part, finds
+-- it empty and — parts remain — STARTS AGAIN instead of reporting "finished"; instance 0 drops the pause and takes the
+-- token; instance 1 is told "finished" only now, by a reader section over the last, drained part.  Terminal, 1 fired.
+example : ∃ s, Pandora.Model.C03Comp.crun ⟨false, 1, none, false, 2⟩ [0, 0, 1]
+      (Pandora.Model.C03Comp.cinitWith ⟨false, 1, none, false, 2⟩ [0, 0, 1])
+    [.other (.start 0), .lsec 0, .leftRet 0 1, .other (.acq 0), .other (.start 1), .lsec 1, .leftRet 1 1, .other (.acq 1),
+     .rsec 0, .rsec 1, .wsec 0, .wsec 1, .rsec 0, .wsec 0, .nextRet 0 true, .rsec 1, .nextRet 1 false,
+     .other (.reqAdd 0), .other (.shoot 0 0), .other (.respAdd 0), .other (.rel 0 0), .other (.rel 1 1),
+     .lsec 0, .leftRet 0 0, .lsec 1, .leftRet 1 0] = some s ∧
+    s.terminal = true ∧ s.f.base.started = 2 ∧ s.f.base.fired = 1 ∧ s.f.base.unfired = 1 ∧ s.sp = [0] := by
+  refine ⟨_, rfl, by decide, by decide, by decide, by decide, by decide⟩
+
+-- falsifiability: the writer section WITHOUT the retry (`wsecNoRetry`: "somebody has started the next part" returns that
+-- part's answer as it is) says "finished" in exactly that situation — two parts left, 1 token in them — where `wsec` starts
+-- again; so `C03_comp_section_answer` is a statement about this retry, not a triviality
+example : Pandora.Model.C03Comp.wsecNoRetry [0, 1] 3 = ([0, 1], .ret false) ∧ Pandora.Model.C03Comp.tot [0, 1] = 1 ∧
+    Pandora.Model.C03Comp.wsec [0, 1] 3 = ([0, 1], .retry) := by decide
+
+-- … and the model rejects a log in which an instance is told "finished" while a part still has a token
+example : Pandora.Model.C03Comp.crun ⟨false, 1, none, false, 2⟩ [0, 0, 1]
+      (Pandora.Model.C03Comp.cinitWith ⟨false, 1, none, false, 2⟩ [0, 0, 1])
+    [.other (.start 0), .lsec 0, .leftRet 0 1, .other (.acq 0), .other (.start 1), .lsec 1, .leftRet 1 1, .other (.acq 1),
+     .rsec 0, .rsec 1, .wsec 0, .wsec 1, .nextRet 1 false] = none := by decide
+
+-- `C03_comp_writer_never_panics`: a caller between its sections
+example : ∃ s, Pandora.Model.C03Comp.crun ⟨false, 1, none, false, 1⟩ [0, 1]
+      (Pandora.Model.C03Comp.cinitWith ⟨false, 1, none, false, 1⟩ [0, 1])
+    [.other (.start 0), .lsec 0, .leftRet 0 1, .other (.acq 0), .rsec 0] = some s ∧ s.w[0]? = some (some 2) :=
+  ⟨_, rfl, by decide⟩
+
+-- `C03_source_composite`: `NewComposite` over the parts [2, 0, 3]
+example : Pandora.Model.C03Comp.mkLeftAfter [2, 0, 3] = [3, 3, 0] ∧ Pandora.Model.C03Comp.tot [2, 0, 3] = 5 := by decide
 
 end Pandora.Props.C03
